@@ -113,6 +113,8 @@ experiments:
 """
 
 WRONG = [None, [], {}, "str", 5, -1, 1.5, True, ["a", "b"], {"k": "v"}, "", "5!", "!", "0x10",
+         # YAML's .inf / -.inf / .nan and floats that are whole numbers or beyond every int a run could have
+         float("inf"), float("-inf"), float("nan"), 2.0, 1e308,
          # maps whose keys YAML reads as int / bool / null (mixed with strings), values with braces and format characters
          {1: "a", "B": "b"}, {None: "x", "B": "y"}, {True: "a"}, {"{k}": "{v}"}, "a{b}c", "%(nokey)s", "100%", "{", "}"]
 
@@ -281,7 +283,7 @@ def run(chk):
             docs.append(("valid-shared:" + k, v) if sel is None else ("valid-shared:" + k + ":" + " ".join(sel), v))
     # systematic single-point mutations of the valid document: every position dropped / replaced by every wrong value
     for path in all_paths(base):
-        for w in [("drop",)] + [("wrong", x) for x in (WRONG if tier == "thorough" else [None, [], {}, "str", 5])]:
+        for w in [("drop",)] + [("wrong", x) for x in (WRONG if tier == "thorough" else [None, [], {}, "str", 5, float("inf")])]:
             doc = copy.deepcopy(base)
             parent = get_parent(doc, path)
             try:
